@@ -223,6 +223,19 @@ def linger_signal_family(rng, n):
     return out
 
 
+def backlog_family(rng, n):
+    """the worker logs a burst (far more than a pipe holds) right before it returns NORMALLY, and the parent consumes the
+    records slowly: the records still unreceived when the function returns must neither keep the handle from completing nor
+    get lost, whatever the exit does to the child's queue feeder thread"""
+    out = []
+    for i in range(n):
+        init = bool(i % 2)
+        d = S(['return', 'raise'][i % 2], 3, True, init, None, log=rng.choice([150, 300]), log_size=rng.choice([2000, 4000]), timeout=40)
+        d['handler_delay'] = rng.choice([0.01, 0.02])
+        out.append(d)
+    return out
+
+
 def storm_family(rng, reps=1):
     """many awaiters of the same handle: a new task awaits it in every loop iteration while the function runs and the
     process exits, one when the process sentinel fires, some right after the first result, one much later"""
@@ -248,6 +261,7 @@ def gen_scenarios(rng, tier: str) -> list[dict]:
         scn += logging_family(rng, 4)                                         # 5
         scn += linger_family(rng, 2)                                          # 2
         scn += linger_signal_family(rng, 2)                                   # 2
+        scn += backlog_family(rng, 2)                                         # 2
         scn += storm_family(rng)                                              # 3: return, raise, killed
     else:
         scn = plain_family(rng, reps=3)                                       # 60
@@ -258,6 +272,7 @@ def gen_scenarios(rng, tier: str) -> list[dict]:
         scn += logging_family(rng, 120)                                       # 160
         scn += linger_family(rng, 8)
         scn += linger_signal_family(rng, 8)
+        scn += backlog_family(rng, 8)
         scn += storm_family(rng, reps=8)                                      # 40
     return scn
 
@@ -381,6 +396,15 @@ def oracle(scn: dict, o: dict) -> list[tuple[str, str]]:
                   'future-never-completes': 'the `_run` task is still suspended at `ret = await future`: the executor\'s future was never resolved '
                                             'in the event loop',
                   }.get(stage, '')
+        if stage == 'log-listener-never-ends':
+            # the recorded finding is about a worker that DIES ABRUPTLY (signal, os._exit) while its feeder thread writes; the
+            # same symptom after a normal return of the function is a different failure and is reported under its own signature
+            abrupt = bool(scn.get('signal')) or scn['spec'].get('outcome') in ('hardexit',)
+            stage = stage + (':abrupt-death' if abrupt else ':normal-exit')
+            if not abrupt:
+                detail = ('the function returned normally but the records it had logged were still unreceived: the listener never gets '
+                          f'its sentinel (feeder_waits_for_write_lock={o.get("feeder_waits_for_write_lock")}, reader_inside_partial_record='
+                          f'{o.get("reader_inside_partial_record")})')
         return [(f'hang:{stage}', f'{where} within {scn.get("timeout", SCN_TIMEOUT)} s ({detail}); child alive={o.get("child_alive_at_hang")}; '
                                   f'pending tasks={o.get("pending_at_hang")}; main thread at {(o.get("stacks") or {}).get("MainThread", [])[-3:]}')]
     if o.get('start_raised'):
